@@ -86,6 +86,14 @@ CHECKS.update({
             TRUST_HTTP + ' SCTE-35 reader self-tested on the two ANSI/SCTE 35 section 14 examples, CRC on the standard check value.', '4.14'),
 })
 
+CHECKS.update({
+    'C06': ('exploration',
+            'HTTP-boundary runtime monitor: end-to-end walk of every static manifest (numbers, timeline entries, byte ranges, last+1) with the independent walker chaining decode times and comparing ranged bodies with the stored file',
+            'All ten vod/odvod template x mode pairs x streams x option vectors; every enumerated segment of every Representation is fetched, '
+            'chained gaplessly from the file\'s first decode time and summed against the stored duration; byte ranges must tile the stored file.',
+            TRUST_HTTP, '4.6'),
+})
+
 NOT_YET = {}
 
 
